@@ -69,6 +69,9 @@ class RealMux:
         self.out = []            # reassembled: (sid, fid, nbytes or n, type name)
         self.meta = {}           # fid -> (sid, k, expected content)
         self.tags = {}
+        self.enq_log = []        # (sid, fid) in queueing order
+        self.wire = []           # (sid, fid, follows) as written
+        self.setup_queued = False
 
     # --- Enq
     def enq(self, sid, fid, k):
@@ -83,6 +86,7 @@ class RealMux:
             f = to_payload_frame(sid, Payload(data), complete=(fid % 3 == 0), is_next=True, fragment_size_bytes=FRAG)
             self.meta[fid] = (sid, k, ('PAYLOAD', data, fid % 3 == 0))
         self._tag(f, fid)
+        self.enq_log.append((sid, fid))
         self.client.send_frame(f)
 
     def _tag(self, f, fid):
@@ -91,21 +95,60 @@ class RealMux:
     def enq_setup(self):
         from rsocket.rsocket_base import RSocketBase
         _drive(RSocketBase.connect(self.client))      # the part of connect() that runs once the transport is there
+        self.setup_queued = True
 
     # --- Send: one iteration of the sender loop, as in RSocketBase._sender
     def send(self):
         from rsocket.frame import SetupFrame
+        if self.client._send_queue.empty():
+            return None         # only possible after the implementation drifted from the specification
         cm = self.client._get_next_frame_to_send(self.transport)
         frame = _drive(cm.__aenter__())
         raw = frame.serialize()
         _drive(cm.__aexit__(None, None, None))
         self.written.append(raw)
         if isinstance(frame, SetupFrame):
+            self.wire.append((0, 0, False))
             return (0, 0, False)
         sid = frame.stream_id
         follows = bool(getattr(frame, 'flags_follows', False))
         fid = self._fid_of_bytes(raw)
+        self.wire.append((sid, fid, follows))
         return (sid, fid, follows)
+
+    def oracle(self):
+        """the invariants of Mux.tla (C05 and its consequences) evaluated on what the real code wrote and reassembled"""
+        if self.setup_queued and self.wire and self.wire[0][0] != 0:
+            return ('C05.setup_first', 'SETUP was queued with priority but the first frame on the wire belongs to stream %d' % self.wire[0][0])
+        for sid in set(s for s, _ in self.enq_log):
+            want = [f for s, f in self.enq_log if s == sid]
+            runs = []           # [fid, closed]
+            for (s, f, follows) in self.wire:
+                if s != sid:
+                    continue
+                if runs and not runs[-1][1]:
+                    if runs[-1][0] != f:
+                        return ('C05.no_foreign_frame_inside_fragmented_frame_of_same_stream',
+                                'stream %d: a fragment of frame %d was written between the fragments of frame %d' % (sid, f, runs[-1][0]))
+                    runs[-1][1] = not follows
+                else:
+                    runs.append([f, not follows])
+            got = [r[0] for r in runs]
+            if got != want[:len(got)]:
+                return ('C05.per_stream_queueing_order', 'stream %d: frames reached the wire in the order %s, queued in the order %s' % (sid, got, want))
+        seen = {}
+        for (rs, rf, content) in self.out:
+            if rs == 0:
+                continue
+            seen.setdefault(rs, []).append(rf)
+            if rf not in self.meta or content != self.meta[rf][2]:
+                want = self.meta.get(rf, (None, None, None))[2]
+                return ('C05.reassembled_intact', 'stream %d: the peer reassembled %s, queued was %s' % (rs, _short(content), _short(want)))
+        for sid, fids in seen.items():
+            want = [f for s, f in self.enq_log if s == sid]
+            if fids != want[:len(fids)]:
+                return ('C05.delivered_in_order_once', 'stream %d: the peer reassembled frames %s, queued in the order %s' % (sid, fids, want))
+        return None
 
     def _fid_of_bytes(self, raw):
         from rsocket.frame import parse_or_ignore, RequestNFrame
@@ -125,6 +168,8 @@ class RealMux:
     # --- Recv
     def recv(self):
         from rsocket.frame import parse_or_ignore, SetupFrame, RequestNFrame
+        if self.rpos >= len(self.written):
+            return              # (drifted implementation)
         raw = self.written[self.rpos]
         self.rpos += 1
         f = parse_or_ignore(raw)
@@ -164,26 +209,31 @@ def _apply(real, name, args, st_before):
     raise common.Machinery('unknown Mux action %r' % name)
 
 
+def _short(c):
+    if c is None:
+        return 'nothing'
+    if c[0] == 'PAYLOAD':
+        return 'PAYLOAD(%d bytes, complete=%s)' % (len(c[1]), c[2])
+    return '%s(%s)' % (c[0], c[1])
+
+
 def _compare(real, exp, sent):
-    """returns (clause, detail) or None"""
+    """(clause, detail): the real code violates C05 (oracle on its own observations); ('DRIFT', detail): it only left the
+    specification state; None: it is in the specification state"""
+    bad = real.oracle()
+    if bad:
+        return bad
     if sent is not None:
         w = exp['wire'][-1]
         if tuple(sent) != (w[0], w[1], bool(w[2])):
-            return ('C05.sender_step_matches_spec', 'sender wrote (sid,frame,follows)=%s, specification says %s' % (sent, w))
+            return ('DRIFT', 'sender wrote (sid,frame,follows)=%s, specification says %s' % (sent, w))
     rq = real.queue()
     if rq != exp['q']:
-        return ('C05.queue_order_matches_spec', 'send queue is %s, specification says %s' % (rq, exp['q']))
-    if len(real.out) != len(exp['out']):
-        return ('C05.reassembly_matches_spec', 'peer reassembled %d frames, specification says %d' % (len(real.out), len(exp['out'])))
-    for (rs, rf, content), (es, ef, n) in zip(real.out, exp['out']):
-        if (rs, rf) != (es, ef):
-            return ('C05.reassembly_matches_spec', 'peer reassembled frame %s of stream %s, specification says frame %s of stream %s' % (rf, rs, ef, es))
-        if es != 0:
-            sid, k, want = real.meta[ef]
-            if content != want:
-                return ('C05.reassembled_intact', 'frame %d of stream %d reassembled as %s bytes/complete=%s, queued %s bytes/complete=%s' % (
-                    ef, es, len(content[1]) if content[0] == 'PAYLOAD' else content[1], content[-1],
-                    len(want[1]) if want[0] == 'PAYLOAD' else want[1], want[-1]))
+        return ('DRIFT', 'send queue is %s, specification says %s' % (rq, exp['q']))
+    ro = [(a, b) for (a, b, _) in real.out]
+    eo = [(a, b) for (a, b, _) in exp['out']]
+    if ro != eo:
+        return ('DRIFT', 'peer reassembled %s, specification says %s' % (ro, eo))
     return None
 
 
